@@ -41,6 +41,7 @@ class Pending:
     def __init__(self, conn, raw, req):
         self.conn, self.raw, self.req = conn, raw, req
         self.answered = False
+        self.held = False
 
 
 class Conn:
@@ -69,7 +70,7 @@ class Conn:
 
     def oldest(self):
         for p in self.inbox:
-            if not p.answered:
+            if not p.answered and not p.held:
                 return p
         return None
 
@@ -77,6 +78,121 @@ class Conn:
         pending.answered = True
         import struct
         self.tr.deliver(struct.pack(">i", len(body_bytes)) + body_bytes)
+
+
+HOLD = object()      # the coordinator keeps the request unanswered for now (a join or sync waiting for the others)
+
+
+class GroupState:
+    """A group coordinator that does what Kafka documents for consumer groups and nothing spontaneously: joins are
+    held until the scheduler completes the rebalance (`complete_join`); members that have not re-joined by then are
+    removed, as are members the scheduler evicts (session timeout)."""
+
+    def __init__(self):
+        self.generation = 0
+        self.state = "Empty"          # Empty | PreparingRebalance | AwaitingSync | Stable
+        self.members = {}             # member id -> subscription metadata (bytes) of the current generation
+        self.leader = None
+        self.joined = {}              # member id -> metadata, for the generation being formed
+        self.held_joins = []          # (Pending, member id)
+        self.held_syncs = []          # (Pending, member id)
+        self.assignment = {}          # member id -> assignment bytes (current generation)
+        self.next_member = 1
+        self.ever = set()
+
+    # -- called by Cluster.respond
+    def error_response(self, api, code):
+        if api == JOIN_GROUP:
+            return {"error": code, "generation": -1, "protocol": "", "leader": "", "member": "", "members": []}
+        if api == SYNC_GROUP:
+            return {"error": code, "assignment": b""}
+        return {"error": code}
+
+    def check(self, generation, member):
+        if member not in self.members:
+            return UNKNOWN_MEMBER
+        if generation != self.generation:
+            return ILLEGAL_GENERATION
+        if self.state == "PreparingRebalance":
+            return REBALANCE_IN_PROGRESS
+        return 0
+
+    def handle(self, api, b):
+        if api == JOIN_GROUP:
+            m = b["member"]
+            if m and m not in self.members and m not in self.joined:
+                return self.error_response(api, UNKNOWN_MEMBER)
+            if not m:
+                m = "m%d" % self.next_member
+                self.next_member += 1
+                self.ever.add(m)
+            meta = b["protocols"][0]["metadata"] if b["protocols"] else b""
+            self.protocol = b["protocols"][0]["name"] if b["protocols"] else ""
+            self.joined[m] = meta
+            self.state = "PreparingRebalance"
+            self._hold_for = m
+            return HOLD
+        if api == SYNC_GROUP:
+            err = UNKNOWN_MEMBER if b["member"] not in self.members else \
+                ILLEGAL_GENERATION if b["generation"] != self.generation else \
+                REBALANCE_IN_PROGRESS if self.state == "PreparingRebalance" else 0
+            if err:
+                return self.error_response(api, err)
+            if b["member"] == self.leader:
+                self.assignment = {a["member"]: a["assignment"] for a in b["assignments"]}
+                self.state = "Stable"
+                self._release_syncs = True
+                return {"error": 0, "assignment": self.assignment.get(b["member"], b"") or b""}
+            if self.state == "Stable":
+                return {"error": 0, "assignment": self.assignment.get(b["member"], b"") or b""}
+            self._hold_for = b["member"]
+            return HOLD
+        if api == HEARTBEAT:
+            return {"error": self.check(b["generation"], b["member"])}
+        if api == LEAVE_GROUP:
+            if b["member"] in self.members:
+                self.remove(b["member"])
+                return {"error": 0}
+            self.joined.pop(b["member"], None)
+            return {"error": UNKNOWN_MEMBER}
+        raise kwire.WireError("group api %d" % api)
+
+    def remove(self, member):
+        self.members.pop(member, None)
+        self.assignment.pop(member, None)
+        self.joined.pop(member, None)
+        if self.members or self.joined:
+            self.state = "PreparingRebalance"
+        else:
+            self.state = "Empty"
+
+    def complete_join(self):
+        """the rebalance timeout expires / everybody has re-joined: the new generation is formed from those who joined.
+        Returns [(Pending, response)] for the held joins (a held join of a member that has left meanwhile is refused)."""
+        if not self.held_joins:
+            return []
+        out = []
+        if not self.joined:
+            for p, m in self.held_joins:
+                out.append((p, self.error_response(JOIN_GROUP, UNKNOWN_MEMBER)))
+            self.held_joins = []
+            return out
+        self.generation += 1
+        self.members = dict(self.joined)
+        self.joined = {}
+        self.assignment = {}
+        ids = sorted(self.members)
+        self.leader = ids[0]
+        self.state = "AwaitingSync"
+        for p, m in self.held_joins:
+            if m not in self.members:
+                out.append((p, self.error_response(JOIN_GROUP, UNKNOWN_MEMBER)))
+                continue
+            lst = [{"member": x, "metadata": self.members[x]} for x in ids] if m == self.leader else []
+            out.append((p, {"error": 0, "generation": self.generation, "protocol": getattr(self, "protocol", ""), "leader": self.leader,
+                            "member": m, "members": lst}))
+        self.held_joins = []
+        return out
 
 
 class Cluster:
@@ -152,9 +268,37 @@ class Cluster:
         if resp is None:          # no response for this request (acks=0, or ApiVersions not implemented)
             p.answered = True
             return None
+        if resp is HOLD:
+            g = self.groups[b["group"]]
+            p.held = True
+            (g.held_joins if api == JOIN_GROUP else g.held_syncs).append((p, g._hold_for))
+            return None
         data = kwire.enc_response(api, ver, r["corr"], resp)
         p.conn.send(p, data)
+        if api == SYNC_GROUP and resp["error"] == 0:
+            g = self.groups[b["group"]]
+            if getattr(g, "_release_syncs", False):
+                g._release_syncs = False
+                for hp, m in g.held_syncs:
+                    if hp.conn.tr.connected:
+                        hp.held = False
+                        hp.conn.send(hp, kwire.enc_response(SYNC_GROUP, 0, hp.req["corr"],
+                                                            {"error": 0, "assignment": g.assignment.get(m, b"") or b""}))
+                g.held_syncs = []
         return resp
+
+    def complete_join(self, group):
+        """scheduler event: the coordinator stops waiting and answers the joins it holds"""
+        g = self.groups[group]
+        n = 0
+        for p, resp in g.complete_join():
+            p.held = False
+            if p.conn.tr.connected:
+                p.conn.send(p, kwire.enc_response(JOIN_GROUP, 0, p.req["corr"], resp))
+                n += 1
+            else:
+                p.answered = True
+        return n
 
     def respond(self, api, ver, b, node, override):
         code = override if isinstance(override, int) else None
@@ -283,7 +427,14 @@ class Cluster:
         return g.check(generation, member)
 
     def group_api(self, api, b, node, code):
-        raise kwire.WireError("group coordinator not configured")
+        g = self.groups.get(b["group"])
+        if g is None:
+            raise kwire.WireError("group coordinator not configured")
+        if code:
+            return g.error_response(api, code)
+        if self.coordinator.get(b["group"]) != node:
+            return g.error_response(api, NOT_COORDINATOR)
+        return g.handle(api, b)
 
     # ---- logs
     def append(self, part, entries):
